@@ -604,19 +604,36 @@ impl Iterator for ManifestIterator {
             }
         };
         let mut edit = Edit::default();
-        for (idx, line) in file.lines().enumerate() {
-            let line = match line {
-                Ok(line) => line,
+        let mut idx = 0usize;
+        loop {
+            // NOTE(rescrv):  Lines end at '\n' and nothing else.  Any string without a newline can
+            // be applied, including the empty string, non-ASCII strings, and strings that end in
+            // '\r', so this must read back exactly the bytes _apply wrote.
+            let mut raw = Vec::new();
+            match file.read_until(b'\n', &mut raw) {
+                Ok(0) => {
+                    break;
+                }
+                Ok(_) => {}
                 Err(err) => {
                     return self.poison(err);
                 }
             };
-            if !line.is_ascii() {
-                return Some(Err(corruption(format!("line {idx} is not ascii"))));
+            if raw.last() == Some(&b'\n') {
+                raw.pop();
             }
+            let line = match String::from_utf8(raw) {
+                Ok(line) => line,
+                Err(_) => {
+                    return self.poison(corruption(format!("line {idx} is not utf-8")));
+                }
+            };
+            let this_idx = idx;
+            idx += 1;
+            let idx = this_idx;
             if line == TX_SEPARATOR {
                 return Some(Ok(edit));
-            } else if line.len() > 9 {
+            } else if line.len() >= 9 && line.is_char_boundary(8) {
                 let crc32c_expected = match u32::from_str_radix(&line[..8], 16) {
                     Ok(crc32c_expected) => crc32c_expected,
                     Err(err) => {
@@ -628,18 +645,19 @@ impl Iterator for ManifestIterator {
                 if crc32c::crc32c(&line.as_bytes()[8..]) != crc32c_expected {
                     return self.poison(corruption(format!("crc32c failure on line {idx}")));
                 }
-                let action = line.as_bytes()[8] as char;
+                let mut chars = line[8..].chars();
+                // SAFETY(rescrv):  line.len() >= 9, so there is at least one character.
+                let action = chars.next().unwrap();
+                let payload = chars.as_str();
                 if action == '+' {
-                    if let Err(err) = edit.add(&line[9..]) {
+                    if let Err(err) = edit.add(payload) {
                         return self.poison(err);
                     }
                 } else if action == '-' {
-                    if let Err(err) = edit.rm(&line[9..]) {
+                    if let Err(err) = edit.rm(payload) {
                         return self.poison(err);
                     }
-                } else if action == '\n' {
-                    return self.poison(corruption("operation \\n is not supported"));
-                } else if let Err(err) = edit.info(action, &line[9..]) {
+                } else if let Err(err) = edit.info(action, payload) {
                     return self.poison(err);
                 }
             } else {
